@@ -32,7 +32,8 @@ def no_casts(rng, gen):
 
 
 def flat(t):
-    return [Fraction(x) for x in t.detach().reshape(-1).tolist()]
+    # (a non-finite entry stays a float: it equals no model value and is reported as a difference, not a harness crash)
+    return [Fraction(x) if x == x and abs(x) != float("inf") else x for x in t.detach().reshape(-1).tolist()]
 
 
 def rows(t):
